@@ -444,6 +444,11 @@ class UTPM(Ring, RawAlgorithmsMixIn):
             return self.__class__(y_data)
 
     def __rpow__(self,r):
+        if isinstance(r, (numpy.number, numpy.bool_, numpy.ndarray)) and numpy.asarray(r).dtype.kind in 'fciub':
+            # a base of lower precision than the polynomial (numpy.float32(2.5)**x, numpy.uint8(3)**x: numpy.log
+            # of a small integer type is computed in half precision) is promoted before its logarithm is taken,
+            # like numpy promotes it in r**x_0
+            r = numpy.asarray(r, dtype=numpy.result_type(numpy.asarray(r).dtype, self.data.dtype))[()]
         return UTPM.exp(numpy.log(r)*self)
 
 
